@@ -68,8 +68,8 @@ def size_shapes():
 def size_cases(tier, rng):
     for name, g in size_shapes():
         n = len(g["V"])
-        perms = [[(v + r) % n for v in range(n)] for r in range(0, n, 2 if n > 10 else 1)]
-        for _ in range((2 if n > 10 else 6) if tier == "quick" else 30):
+        perms = [[(v + r) % n for v in range(n)] for r in range(n)]
+        for _ in range(6 if tier == "quick" else 30):
             q = list(range(n))
             rng.shuffle(q)
             perms.append(q)
